@@ -193,6 +193,10 @@ func run(sc *Scenario) (evs []Event, fatal string) {
 	B := fed.VerifNewServing(fed.VerifOptions{NodeName: "B", Serf: fakeSerf{}, LocalSubs: mem.NewStore(), Retained: trie.NewStore(), Publisher: bPub})
 	listen := func(f *fed.Federation) (string, *grpc.Server, error) {
 		ln, err := net.Listen("tcp", "127.0.0.1:0")
+		for i := 0; err != nil && i < 200; i++ { // ephemeral ports can run out for a moment
+			time.Sleep(50 * time.Millisecond)
+			ln, err = net.Listen("tcp", "127.0.0.1:0")
+		}
 		if err != nil {
 			return "", nil, err
 		}
